@@ -296,3 +296,9 @@ def r8(ctx):
            f"with fire_cont_frame=True recv() returns {bad.value!r} for a continuation fragment: its payload is dropped (recv_data() returns it)", loc,
            {"path": path_text(bad)} if bad else None)
 
+
+@rule("R-C04-9", min_instances=1, title="a receive timeout between the fragments of a message leaves the reassembly state untouched (the retried call continues the same message)")
+def r_sib_r_c04_9(ctx):
+    from .c03 import r6 as timeout_leaves_state
+    timeout_leaves_state(ctx)
+
